@@ -35,11 +35,13 @@ NoBuilder == [live |-> FALSE, root |-> "", m |-> "", p |-> "",
 
 \* state: [wroot, wprod, wcons, wfl, bs, routes, made, nf, ok]
 \*   wfl: the filters of the WebService (they apply to ALL its routes, whenever they were added)
+\*   added: the WebService has been added to a container (routes registered or removed afterwards must be served
+\*   exactly like those that were there before: web_service.go Route / RemoveRoute on a live WebService);
 \*   made: number of sub paths handed out; nf: number of filter ids handed out;
 \*   ok: every registration so far took a value Layer A allows
 InitState(Bids) ==
   [wroot |-> "", wprod |-> <<>>, wcons |-> <<>>, wfl |-> <<>>, bs |-> [b \in Bids |-> NoBuilder],
-   routes |-> <<>>, made |-> 0, nf |-> 0, ok |-> TRUE]
+   routes |-> <<>>, made |-> 0, nf |-> 0, ok |-> TRUE, added |-> FALSE]
 
 \* ---------- Layer A ----------
 AllowedP(S, b) == IF S.bs[b].ownP # <<>> THEN {S.bs[b].ownP} ELSE {S.wprod} \cup S.bs[b].seenP
@@ -62,7 +64,9 @@ CanRegister(S, b) ==
 
 \* ops are records [op, b, m, v]; Enabled says which the generators may issue
 Enabled(S, o) ==
-  CASE o.op = "wsPath"     -> S.made = 0 /\ S.wroot = ""
+  CASE o.op = "wsPath"     -> S.made = 0 /\ S.wroot = "" /\ ~S.added
+    [] o.op = "cadd"       -> ~S.added
+    [] o.op = "rm"         -> o.b \in 1..Len(S.routes)
     [] o.op = "wsProduces" -> TRUE
     [] o.op = "wsConsumes" -> TRUE
     [] o.op = "wsFilter"   -> TRUE
@@ -80,6 +84,9 @@ PathNo(k) == "/p" \o (CASE k = 1 -> "1" [] k = 2 -> "2" [] k = 3 -> "3" [] k = 4
 \* the successor under Layer B; `append` is the DefaultsAppend counter-model
 Step(S, o, append) ==
   CASE o.op = "wsPath"     -> [S EXCEPT !.wroot = o.v[1]]
+    [] o.op = "cadd"       -> [S EXCEPT !.added = TRUE]
+    \* RemoveRoute(path, method) of the o.b-th registered route (method+path are unique among the registered routes)
+    [] o.op = "rm"         -> [S EXCEPT !.routes = [i \in 1..(Len(@) - 1) |-> IF i < o.b THEN @[i] ELSE @[i + 1]]]
     [] o.op = "wsProduces" -> [S EXCEPT !.wprod = o.v]
     [] o.op = "wsConsumes" -> [S EXCEPT !.wcons = o.v]
     [] o.op = "wsFilter"   -> [S EXCEPT !.nf = @ + 1, !.wfl = Append(@, S.nf + 1)]
